@@ -11,11 +11,13 @@ import Uquic.Oracle.Frame
 import Uquic.Model.UQuic.Frames
 import Uquic.Model.UQuic.Scrambler
 import Uquic.Model.UQuic.Planned
+import Uquic.Model.UQuic.PerDatagram
 import Uquic.Spec.Framing
 import Uquic.Spec.FramingMon
 
 open Uquic.Oracle Uquic.Model.UQuic.Frames Uquic.Model.UQuic.Scrambler Uquic.Spec.Framing Uquic.Spec.FramingMon
 open Uquic.Model.UQuic.Planned (PF)
+open Uquic.Model.UQuic.PerDatagram (PD)
 
 /-! ### text -/
 
@@ -197,12 +199,27 @@ structure PFGhost where
   /-- per Pack call: the CRYPTO ranges the packet carried (reference reader); `none`: nothing packed or lost -/
   delivered : List (Option (List (Nat × Nat))) := []
 
+/-- ghost of a per-datagram session, from the ops and the implementation's answers only -/
+structure PDGhost where
+  /-- everything written to the Initial CRYPTO stream so far -/
+  written : List UInt8 := []
+  /-- per Pack call: the CRYPTO ranges the packet carried (reference reader); `none`: nothing packed or lost -/
+  delivered : List (Option (List (Nat × Nat))) := []
+  /-- every packet so far was built by a builder inside its contract for the share it was handed -/
+  judgeable : Bool := true
+  /-- the layout of a QUICFrames builder (`none`: another builder) -/
+  layout : Option (List QFrame) := none
+  /-- the configurations of a QUICRandomFrames / QUICMultiDatagramFrames builder (from the `pd new` op) -/
+  cfgs : List RFCfg := []
+
 structure St where
   src : List UInt8 := []
   cs : Option CS := none
   g : Ghost := {}
   pf : Option PF := none
   pg : PFGhost := {}
+  pd : Option PD := none
+  dg : PDGhost := {}
 
 def sliceOf (src : List UInt8) (lo n : Int) : List UInt8 :=
   let lo := if lo < 0 then 0 else if lo > src.length then (src.length : Int) else lo
@@ -302,13 +319,18 @@ def implPayloads (impl : String) : Option (List (List UInt8) × String) :=
   | ["built", hs, v] => some (unhexList hs, (v.drop 2).toString)
   | _ => none
 
-def judgeFlight (name : String) (src : List UInt8) (inRange : Bool) (impl : String) : List Fail := Id.run do
+def judgeFlight (name : String) (src : List UInt8) (inRange : Bool) (impl : String) (budgets : List Int := []) :
+    List Fail := Id.run do
   let mut fails : List Fail := []
   match implPayloads impl with
   | some (ps, v) =>
     if v == "ok" then
       if !carriesAt src 0 0 src.length ps then
         fails := fails ++ [(name ++ "_carries", "-", s!"released flight of {ps.length} datagrams does not carry the {src.length} byte ClientHello")]
+      match firstOversize ps budgets with
+      | some (i, l, b) =>
+        fails := fails ++ [(name ++ "_fits", "-", s!"released flight: datagram {i} has {l} bytes of frames, its packet holds {b}")]
+      | none => pure ()
     else if v == "PANIC" then
       fails := fails ++ [(name ++ "_validate_panic", "-", "validateInitialFlight panicked on a built-in builder's output")]
   | none =>
@@ -348,6 +370,67 @@ def parseRFDatagrams (s : String) : List RFDatagram :=
 def cfgInBounds (c : RFCfg) : Bool :=
   decide (c.minPing ≤ c.maxPing) && decide (1 ≤ c.minCrypto) && decide (c.minCrypto ≤ c.maxCrypto)
     && (c.length == 0 || (decide (1 ≤ c.minPad) && decide (c.minPad ≤ c.maxPad)))
+
+
+/-- the shuffle witness for a MarshalInitialPacketPayload call of a random builder: recompute what the
+    builder is handed (reassembled data, base offset), plan, recover the permutation from the
+    implementation's payload. `(perm, unresolved)` -/
+def marshalWitness (fb : Builder) (idx : Int) (planned : Bool) (cfs : List (Nat × List UInt8)) (d : Draws)
+    (implOut : Option (List UInt8)) : List Nat × Bool :=
+  let cfgOf : Option RFCfg := match fb with
+    | .random c => some c
+    | .multi per => match mfSelect per idx with | .ok c => some c | _ => none
+    | _ => none
+  let prep : Option (List UInt8 × Nat) :=
+    match wireAll cfs with
+    | none => none
+    | some orig => match chReadAll orig with
+      | .ok fs =>
+        let fs := fs.map fun f => (f.1, f.2.1, f.2.2 ++ List.replicate (f.2.1 - f.2.2.length) 0)
+        let sorted := sortByOff fs
+        match (match sorted with | [] => some [] | f :: _ => reassemble f.1 sorted []) with
+        | some cd =>
+          let b := fs.foldl (fun m f => if f.1 < m then f.1 else m) 18446744073709551615
+          some (cd, if b = 18446744073709551615 then 0 else b)
+        | none => none
+      | _ => none
+  match cfgOf, prep, implOut, planned with
+  | some c, some (cd, b), some out, false =>
+    match rfPlan c cd d with
+    | .ok (fl, _) =>
+      match fl.mapM (buildOne (lowestOffset fl) cd b) with
+      | some ser => match recoverPerm fl ser out with
+        | .perm p => (p, false)
+        | .unresolved => ([], true)
+        | .mismatch => (identityPerm fl.length, false)
+      | none => (identityPerm fl.length, false)
+    | _ => ([], false)
+  | some c, some (cd, _), _, _ =>
+    match rfPlan c cd d with
+    | .ok (fl, _) => (identityPerm fl.length, false)
+    | _ => ([], false)
+  | _, _, _, _ => ([], false)
+
+def parseBuilder (kind spec : String) : Option Builder :=
+  match kind with
+  | "nil" => some Builder.none
+  | "qf" => some (Builder.frames (parseFrames spec))
+  | "rf" => some (Builder.random (parseCfg spec))
+  | "mf" => some (Builder.multi ((spec.splitOn ";").map parseCfg))
+  | _ => none
+
+def parseReg (regText : String) : List (Nat × List UInt8) :=
+  if regText == "-" then [] else (regText.splitOn ";").filterMap fun t =>
+    match t.splitOn ":" with
+    | [o, h] => some (natOf o, unhex h)
+    | _ => none
+
+def fmtReg (reg : List (Nat × List UInt8)) : String :=
+  if reg.isEmpty then "-" else ";".intercalate (reg.map fun c => s!"{c.1}:{hx c.2}")
+
+/-- the two frame lists cover the same bytes -/
+def sameCoverage (a b : List (Nat × Nat)) : Bool :=
+  (a.all fun r => coversAll b r.1 (r.1 + r.2)) && (b.all fun r => coversAll a r.1 (r.1 + r.2))
 
 def step (s : St) (op impl : String) : St × StepOut :=
   let w := words op
@@ -408,7 +491,7 @@ def step (s : St) (op impl : String) : St × StepOut :=
     let dl := if dgs == "!" then [] else (dgs.splitOn "/").map parseFrames
     let out := ffBuild dl s.src
     let model := fmtFlight s.src (parseInts budgets) out
-    let fails := judgeFlight "ff" s.src (dl.all padsNonNeg) impl
+    let fails := judgeFlight "ff" s.src (dl.all padsNonNeg) impl (parseInts budgets)
     let tags := [match out with | .ok _ => "ff:built" | .err e => "ff:E:" ++ ((e.splitOn "@").headD "") | _ => "ff:panic"] ++
       (match implPayloads model with | some (_, v) => ["ff:v=" ++ ((v.splitOn "@").headD "")] | none => [])
     (s, { model := model, tags := tags, fails := fails })
@@ -430,7 +513,7 @@ def step (s : St) (op impl : String) : St × StepOut :=
       | .ok _, some (ps, _) => if unresolved then Outcome.ok ps else out
       | _, _ => out
     let model := fmtFlight s.src (parseInts budgets) out
-    let fails := judgeFlight "rff" s.src true impl
+    let fails := judgeFlight "rff" s.src true impl (parseInts budgets)
     let tags := tags ++ [match out with | .ok _ => "rff:built" | .err e => "rff:E:" ++ ((e.splitOn "@").headD "") | _ => "rff:panic"] ++
       (match implPayloads model with | some (_, v) => ["rff:v=" ++ ((v.splitOn "@").headD "")] | none => [])
     (s, { model := model, tags := dedup tags, fails := fails })
@@ -456,19 +539,17 @@ def step (s : St) (op impl : String) : St × StepOut :=
     -- what validateInitialFlight promises for payloads that are frame sequences at all
     let strict := ps.all fun p => (readFrames p).isSome
     let fails : List Fail :=
-      if impl == "ok" && strict && cryptoLen ≥ 0 && !coversShape 0 cryptoLen.toNat ps then
+      (if impl == "ok" && strict && cryptoLen ≥ 0 && !coversShape 0 cryptoLen.toNat ps then
         [("validate_sound", "-", s!"accepted {ps.length} payloads that do not cover [0,{cryptoLen})")]
-      else []
+      else []) ++
+      -- an accepted plan can be sent as described: every datagram fits the packet it is planned for
+      (match (if impl == "ok" then firstOversize ps (parseInts budgets) else none) with
+        | some (i, l, b) => [("validate_fits", "-", s!"accepted a plan whose datagram {i} has {l} bytes of frames, its packet holds {b}")]
+        | none => [])
     let tags := ["val:" ++ ((model.splitOn "@").headD "")] ++ (if strict then ["val:strict"] else ["val:lenient-only"])
     (s, { model := model, tags := tags, fails := fails })
   | ["mip", kind, idx, planned, spec, frames, draws] =>
-    let fb : Option Builder := match kind with
-      | "nil" => some Builder.none
-      | "qf" => some (Builder.frames (parseFrames spec))
-      | "rf" => some (Builder.random (parseCfg spec))
-      | "mf" => some (Builder.multi ((spec.splitOn ";").map parseCfg))
-      | _ => none
-    match fb with
+    match parseBuilder kind spec with
     | none => (s, { model := "bad-op" })
     | some fb =>
       let fr : List (Int × Int × Int) := if frames == "-" then [] else (frames.splitOn ",").filterMap fun t =>
@@ -479,41 +560,8 @@ def step (s : St) (op impl : String) : St × StepOut :=
       let d := parseDraws draws
       let idx := intOf idx
       let planned := planned == "1"
-      -- witness: recompute what the random builder is handed, plan, recover
-      let cfgOf : Option RFCfg := match fb with
-        | .random c => some c
-        | .multi per => match mfSelect per idx with | .ok c => some c | _ => none
-        | _ => none
-      let prep : Option (List UInt8 × Nat) :=
-        match wireAll cfs with
-        | none => none
-        | some orig => match chReadAll orig with
-          | .ok fs =>
-            let fs := fs.map fun f => (f.1, f.2.1, f.2.2 ++ List.replicate (f.2.1 - f.2.2.length) 0)
-            let sorted := sortByOff fs
-            match (match sorted with | [] => some [] | f :: _ => reassemble f.1 sorted []) with
-            | some cd =>
-              let b := fs.foldl (fun m f => if f.1 < m then f.1 else m) 18446744073709551615
-              some (cd, if b = 18446744073709551615 then 0 else b)
-            | none => none
-          | _ => none
       let (perm, unresolved) : List Nat × Bool :=
-        match cfgOf, prep, iw.headD "" == "ok" && !planned with
-        | some c, some (cd, b), true =>
-          match rfPlan c cd d with
-          | .ok (fl, _) =>
-            match fl.mapM (buildOne (lowestOffset fl) cd b) with
-            | some ser => match recoverPerm fl ser (unhex (iw.getD 1 "-")) with
-              | .perm p => (p, false)
-              | .unresolved => ([], true)
-              | .mismatch => (identityPerm fl.length, false)
-            | none => (identityPerm fl.length, false)
-          | _ => ([], false)
-        | some c, some (cd, _), _ =>
-          match rfPlan c cd d with
-          | .ok (fl, _) => (identityPerm fl.length, false)
-          | _ => ([], false)
-        | _, _, _ => ([], false)
+        marshalWitness fb idx planned cfs d (if iw.headD "" == "ok" then some (unhex (iw.getD 1 "-")) else none)
       let out := marshalInitial fb idx planned cfs d perm
       let model := if unresolved then impl else match out with
         | .ok (p, i) => s!"ok {hx p} idx={i}"
@@ -570,8 +618,12 @@ def step (s : St) (op impl : String) : St × StepOut :=
       | .wrap => ("WRAP", { rb := rb })
     -- a released flight must carry the ClientHello (the flight property, on the real packer's plan)
     let fails : List Fail := match implPlan with
-      | some ps => if !s.src.isEmpty && !carriesAt s.src 0 0 s.src.length ps then
-          [("pf_plan_carries", "-", s!"planned flight of {ps.length} datagrams does not carry the {s.src.length} byte ClientHello")] else []
+      | some ps => (if !s.src.isEmpty && !carriesAt s.src 0 0 s.src.length ps then
+          [("pf_plan_carries", "-", s!"planned flight of {ps.length} datagrams does not carry the {s.src.length} byte ClientHello")] else []) ++
+          -- … and can be sent as planned: every datagram fits the Initial packet it is planned for
+          (match firstOversize ps mfb with
+            | some (i, l, b) => [("pf_plan_fits", "-", s!"planned flight released although datagram {i} has {l} bytes of frames and its packet holds {b}")]
+            | none => [])
       | none => []
     let tags := ["pf:new:" ++ kind] ++ [match planned with | .ok _ => "pf:planned" | .err e => "pf:E:" ++ ((e.splitOn "@").headD "") | _ => "pf:panic"]
     ({ s with pf := some pf, pg := { released := implPlan.isSome && !s.src.isEmpty } }, { model := model, tags := tags, fails := fails })
@@ -621,6 +673,9 @@ def step (s : St) (op impl : String) : St × StepOut :=
             pg := { pg with delivered := pg.delivered ++ [some (rangesOf carried)] }
         else
           pg := { pg with delivered := pg.delivered ++ [none] }
+          -- a released flight was validated to be sendable: packing it must not fail half way
+          if impl.startsWith "E:" && pg.released then
+            fails := fails ++ [("pf_pack_error", "-", s!"PackCoalescedPacket failed after the planned flight had been released: {impl}")]
           -- nothing left to send: what was not lost must be the whole ClientHello
           if iw.headD "" == "none" && pg.released then
             let rs := (pg.delivered.filterMap id).flatten
@@ -643,6 +698,114 @@ def step (s : St) (op impl : String) : St × StepOut :=
       let (pf', ok) := Uquic.Model.UQuic.Planned.lose pf k
       let pg := if iw.headD "" == "ok" then { s.pg with delivered := s.pg.delivered.set k none } else s.pg
       ({ s with pf := some pf', pg := pg }, { model := if ok then "ok" else "skip", tags := [if ok then "pf:lose" else "pf:lose-skip"] })
+  | ["pd", "new", kind, spec, cls, maxSize] =>
+    match parseBuilder kind spec with
+    | none => (s, { model := "bad-op" })
+    | some fb =>
+      let hl := intOf ((implField impl "hl=").getD "0")
+      let pd : PD := { fb := fb, cls := parseInts cls, maxSize := intOf maxSize, hdrLen := hl,
+                       cs := { initial := true, buf := s.src } }
+      let layout := match fb with | .frames qfs => some qfs | _ => none
+      let cfgs : List RFCfg := match fb with | .random c => [c] | .multi per => per | _ => []
+      ({ s with pd := some pd, dg := { written := s.src, layout := layout, cfgs := cfgs } },
+       { model := s!"ok hl={hl}", tags := ["pd:new:" ++ kind] ++ (if (parseInts cls).isEmpty then [] else ["pd:cryptolength"]) })
+  | ["pd", "lose", k] =>
+    match s.pd with
+    | none => (s, { model := "skip" })
+    | some pd =>
+      let k := natOf k
+      let (pd', ok) := Uquic.Model.UQuic.PerDatagram.lose pd k
+      let dg := if iw.headD "" == "ok" then { s.dg with delivered := s.dg.delivered.set k none } else s.dg
+      ({ s with pd := some pd', dg := dg }, { model := if ok then "ok" else "skip", tags := [if ok then "pd:lose" else "pd:lose-skip"] })
+  | ["pd", verb, draws] =>
+    match s.pd, verb == "pack" || verb == "probe" with
+    | none, _ => (s, { model := "skip" })
+    | _, false => (s, { model := "bad-op" })
+    | some pd, true =>
+      let isProbe := verb == "probe"
+      let d := parseDraws draws
+      let taken := if isProbe then Uquic.Model.UQuic.PerDatagram.takeWith pd (Uquic.Model.UQuic.PerDatagram.probeBudget pd)
+        else Uquic.Model.UQuic.PerDatagram.takeFrames pd
+      let implP : Option (List UInt8) := if iw.headD "" == "pkt" then some (unhex ((implField impl "p=").getD "-")) else none
+      let (perm, unresolved) := marshalWitness pd.fb pd.idx false taken.2 d implP
+      let (pd', out) := if isProbe then Uquic.Model.UQuic.PerDatagram.probe pd d perm
+        else Uquic.Model.UQuic.PerDatagram.finish taken.1 taken.2 d perm
+      let model := match out with
+        | .none => "none"
+        | .panic => "PANIC"
+        | .err e => "E:" ++ e
+        | .pkt p reg => if unresolved then impl else "pkt p=" ++ hx p ++ " reg=" ++ fmtReg reg
+      let ended := match out with | .err _ => true | .panic => true | _ => false
+      -- monitors on what the real packer did
+      let (dg, fails) : PDGhost × List Fail := Id.run do
+        let mut dg := s.dg
+        let mut fails : List Fail := []
+        if iw.headD "" == "pkt" then
+          let p := unhex ((implField impl "p=").getD "-")
+          let reg := parseReg ((implField impl "reg=").getD "-")
+          match readFrames p with
+          | none =>
+            fails := fails ++ [("pd_payload_legal", "-", "Initial packet payload is not a sequence of PADDING/PING/CRYPTO frames")]
+            dg := { dg with delivered := dg.delivered ++ [some []], judgeable := false }
+          | some fs =>
+            let carried := cryptoOf fs
+            -- (an empty CRYPTO frame carries nothing: a clamped QUICFrames layout may emit one)
+            if !(carried.all fun c => c.2.isEmpty || sliceEq dg.written 0 c.1 c.2) then
+              fails := fails ++ [("pd_carried_truthful", "-",
+                s!"a CRYPTO frame on the wire does not hold the stream's bytes of its offset: carried {carried.map fun c => (c.1, c.2.length)}, registered {reg.map fun c => (c.1, c.2.length)}")]
+            if !(reg.all fun c => !c.2.isEmpty && sliceEq dg.written 0 c.1 c.2) then
+              fails := fails ++ [("pd_registered_truthful", "-", "a registered CRYPTO frame is empty or does not hold the stream's bytes of its offset")]
+            -- the builder re-frames the share it is handed: inside its contract (a QUICFrames layout
+            -- must tile the share) the packet carries exactly the bytes registered for loss recovery
+            let shareLen := (reg.map (·.2.length)).sum
+            let inContract := match dg.layout with
+              | some qfs => qfs.isEmpty || (layoutTiles qfs shareLen && layoutLowest qfs == 0)
+              | none => true
+            if inContract then
+              if !sameCoverage (rangesOf carried) (rangesOf reg) then
+                fails := fails ++ [("pd_carries_registered", "-",
+                  s!"carried {carried.map fun c => (c.1, c.2.length)} but registered {reg.map fun c => (c.1, c.2.length)}")]
+            else
+              dg := { dg with judgeable := false }
+            dg := { dg with delivered := dg.delivered ++ [some (rangesOf carried)] }
+        else
+          dg := { dg with delivered := dg.delivered ++ [none] }
+          if impl == "PANIC" then
+            fails := fails ++ [("pd_panic", "-", "PackCoalescedPacket panicked")]
+          else if impl.startsWith "E:" then
+            -- a failed PackCoalescedPacket closes the connection: legitimate only for a configuration
+            -- outside the documented bounds or a failing random source
+            if impl == "E:reassemble" then
+              fails := fails ++ [("pd_pack_error", "reassemble", "retransmission of non-adjacent CRYPTO ranges: MarshalInitialPacketPayload cannot reassemble them and the connection is closed")]
+            else if impl != "E:rand" && dg.cfgs.all cfgInBounds then
+              fails := fails ++ [("pd_pack_error", "-", impl)]
+          -- nothing left to send: what was not lost must be everything written to the stream
+          else if iw.headD "" == "none" && !isProbe && dg.judgeable && !dg.written.isEmpty then
+            let rs := (dg.delivered.filterMap id).flatten
+            if !coversAll rs 0 dg.written.length then
+              fails := fails ++ [("pd_retransmission_covers", "-",
+                s!"nothing left to send, but the datagrams that were not lost do not cover the {dg.written.length} bytes of the Initial CRYPTO stream")]
+        return (dg, fails)
+      let fresh := pd.queue.isEmpty
+      let tags := (if isProbe then [if taken.2.isEmpty then "pd:probe-empty" else "pd:probe"] else []) ++ [match out with
+        | .none => "pd:pack-none" | .panic => "pd:pack-panic" | .err e => "pd:E:" ++ e
+        | .pkt _ reg =>
+          if fresh then (if reg.length > 1 then "pd:fresh-multi" else "pd:fresh")
+          else (if reg.length > 1 then "pd:retransmit-multi" else "pd:retransmit")] ++
+        (match out with
+          | .pkt _ reg => (if !fresh && (reg.headD (0, [])).1 + ((reg.map (·.2.length)).sum) < pd.cs.writeOffset.toNat then ["pd:retransmit-earlier"] else []) ++
+              (if !fresh && !pd.cs.buf.isEmpty then ["pd:loss-during-flight"] else []) ++
+              (if !fresh && !pd'.queue.isEmpty then ["pd:split-or-leftover"] else []) ++
+              (if pd.idx ≥ 1 && fresh then ["pd:later-datagram"] else [])
+          | _ => [])
+      ({ s with pd := if ended then none else some pd', dg := dg }, { model := model, tags := tags, fails := fails })
+  | ["pd", "write", lo, n] =>
+    match s.pd with
+    | none => (s, { model := "skip" })
+    | some pd =>
+      let p := sliceOf s.src (intOf lo) (intOf n)
+      let pd' := Uquic.Model.UQuic.PerDatagram.writeMore pd p
+      ({ s with pd := some pd', dg := { s.dg with written := s.dg.written ++ p } }, { model := s!"n={p.length}", tags := ["pd:write"] })
   | ["cs", "new", kind] =>
     let cs := if kind == "c" then newInitial true else if kind == "s" then newInitial false else newBase
     ({ s with cs := some cs, g := { client := kind == "c" } }, { model := "ok" ++ csSuffix (some cs), tags := ["cs:new:" ++ kind] })
